@@ -24,7 +24,8 @@ props = ['C%02d' % k for k in range(1, 21)]
 def make_patch(i, c):
     f, ln, text = c[0], c[1], c[2]
     lines = open(os.path.join(src, f)).read().split('\n')
-    new = lines[:ln - 1] + ([c[3]] if len(c) > 3 else []) + lines[ln:]
+    span = c[4] if len(c) > 4 else 1
+    new = lines[:ln - 1] + (c[3].split('\n') if len(c) > 3 else []) + lines[ln - 1 + span:]
     a = os.path.join(out, 'p', '%03d.a' % i)
     b = os.path.join(out, 'p', '%03d.b' % i)
     open(a, 'w').write('\n'.join(lines))
